@@ -3,7 +3,7 @@
 From V.Lib Require Import Base.
 From V.Gen Require Import C15Tables.
 From V.C15 Require Import Model Spec Sem QModel QSpec Corr Wf Proofs ProofsTree ProofsVec ProofsSeq ProofsCanon Bridge
-  QProofs QProofsOps QProofsTerm.
+  ProofsEmpty QProofs QProofsOps QProofsTerm QProofsMore QProofsPrune QBridge.
 Local Open Scope Z_scope.
 
 (** ** Priorities *)
@@ -93,6 +93,24 @@ Theorem C15_insert_empty_range_refuted :
   exists init ops, valid init /\ Forall (fun o => valid (fst o)) ops /\ tinsert_all (Leaf init) ops = None.
 Proof. exact insert_empty_range_refuted. Qed.
 
+(** Inserting an EMPTY range never panics, on any weakly well-formed tree (empty leaves allowed);
+    its only effect is the Historic gap filling up to its position. *)
+Theorem C15_insert_empty_never_panics : forall t, wwf t -> forall x force, rs x = re x ->
+  exists t', tinsert t x force = Some t' /\
+    (wwf t' /\ (False -> wf t') /\
+     span_s t' = Z.min (span_s t) (rs x) /\ span_e t' = Z.max (span_e t) (re x) /\
+     forall h, at_tree t' h = pm (ins_spec (st_of t) (rs x) (re x) (rp x) force) h).
+Proof. exact tinsert_empty_spec. Qed.
+
+(** Hence: non-empty insertions followed by any number of empty ones never panic (the exact
+    shape of the sequences outside the known-finding class: the class needs an empty range
+    followed, later, by a non-empty one). *)
+Theorem C15_nonempty_then_empty : forall ops tl t, wf t ->
+  Forall (fun o => nonempty (fst o)) ops -> Forall (fun o => emptyr (fst o)) tl ->
+  exists t', tinsert_all t (ops ++ tl) = Some t' /\ wwf t' /\
+    st_eq (st_of t') (fold_spec (st_of t) (map op_row (ops ++ tl))).
+Proof. exact tinsert_all_tail_spec. Qed.
+
 (** ** Bridge *)
 
 (** On every case in the domain and outside the known-finding class, agreement of the
@@ -119,19 +137,92 @@ Theorem C15_replace_queue_entries : forall q qs qe es l force,
                rows_at (map row_of q) h = rows_at (map row_of (filter (selp qs qe) q)) h).
 Proof. exact replace_touching. Qed.
 
+(** The same for entries that are non-empty followed by any number of empty ones, with the
+    coverage and no-new-Ignored consequences. *)
+Theorem C15_replace_queue_entries_general : forall q qs qe es tl force,
+  chain q -> qs <= qe -> touches q qs qe ->
+  Forall nonempty es -> Forall emptyr tl -> Forall (within qs qe) (es ++ tl) ->
+  exists q', replace_queue_entries q qs qe (es ++ tl) force = Ok q' /\ chain q' /\ q' <> [] /\
+    let S := replace_state q qs qe (es ++ tl) force in
+    (forall h, rows_at (map row_of q') h = if in_range (lo S) (hi S) h then pm S h else rows_at (map row_of q) h) /\
+    (forall h, in_range (lo S) (hi S) h = true ->
+               rows_at (map row_of q) h = rows_at (map row_of (filter (selp qs qe) q)) h) /\
+    (forall h, rows_at (map row_of q) h <> None -> rows_at (map row_of q') h <> None) /\
+    (forall e h, In e (es ++ tl) -> in_range (rs e) (re e) h = true -> rows_at (map row_of q') h <> None) /\
+    ((forall e, In e (es ++ tl) -> rp e <> Ignored) ->
+     forall h, rows_at (map row_of q') h = Some Ignored -> rows_at (map row_of q) h = Some Ignored).
+Proof. exact replace_touching_facts_g. Qed.
+
+(** The first insertion into an EMPTY scan_queue table (entries: a first valid one — non-empty
+    unless all are empty — then non-empty ones, then empty ones): no panic, no constraint error,
+    the stored queue is the canonical queue of the dominance rule folded from the first entry. *)
+Theorem C15_replace_empty_table : forall qs qe force e0 rest es tl,
+  valid e0 -> (es = [] \/ nonempty e0) -> rest = es ++ tl -> Forall nonempty es -> Forall emptyr tl ->
+  exists q', replace_queue_entries [] qs qe (e0 :: rest) force = Ok q' /\ chain q' /\
+    forall h, rows_at (map row_of q') h = pm (fold_spec (st_of (Leaf e0)) (entry_ops force rest)) h.
+Proof. exact replace_empty. Qed.
+
+(** WalletDb::queue_rescans: ranges that are non-empty followed by any number of empty ones, on an
+    empty table or on a canonical queue that their hull touches: succeeds, canonical result.
+    Exactly which inputs panic: any inverted range (from_parts), and — inside the known-finding
+    class only — an empty range followed later by a non-empty one (witness below; not every such
+    input panics). *)
+Theorem C15_queue_rescans : forall q p s0 e0 rest rn re_,
+  chain q -> (s0, e0) :: rest = rn ++ re_ ->
+  Forall (fun r => fst r < snd r) rn -> Forall (fun r => fst r = snd r) re_ ->
+  (q = [] \/ touches q (hull_s s0 rest) (hull_e e0 rest)) ->
+  exists q', queue_rescans q ((s0, e0) :: rest) p = Ok q' /\ chain q'.
+Proof. exact queue_rescans_spec. Qed.
+Theorem C15_queue_rescans_inverted : forall q p ranges,
+  Exists (fun r => snd r < fst r) ranges -> queue_rescans q ranges p = Panic.
+Proof. exact queue_rescans_inverted. Qed.
+Theorem C15_queue_rescans_empty_not_last_refuted :
+  exists q ranges p, chain q /\ Forall (fun r => fst r <= snd r) ranges /\ queue_rescans q ranges p = Panic.
+Proof. exact queue_rescans_empty_not_last_refuted. Qed.
+
+(** prune_scan_queue_below on a canonical queue: succeeds; the stored queue is the rewritten rows
+    [v] followed by the untouched rows from [height] on, both canonical and contiguous; pointwise
+    ([prune_pm]): heights at or above [height] unchanged; below, a retained priority stays, any
+    other becomes Ignored from the lowest retained row on and is dropped beneath it. *)
+Theorem C15_prune : forall q height retain, chain q ->
+  let rest := filter (fun r => negb (rs r <? height)) q in
+  exists v, prune_scan_queue_below q height retain = Ok (v ++ rest) /\
+    chain v /\ chain rest /\
+    (forall x y, last_opt v = Some x -> hd_opt rest = Some y -> re x = rs y) /\
+    (forall h, rows_at (map row_of (v ++ rest)) h = prune_pm q height retain h).
+Proof. exact prune_spec. Qed.
+
+(** … so the result is canonical unless the last rewritten row and the first untouched row have
+    the same priority; that junction is not coalesced (known finding, class 2, witness). *)
+Theorem C15_prune_canonical : forall q height retain v, chain q ->
+  let rest := filter (fun r => negb (rs r <? height)) q in
+  prune_scan_queue_below q height retain = Ok (v ++ rest) -> chain v -> chain rest ->
+  (forall x y, last_opt v = Some x -> hd_opt rest = Some y -> re x = rs y) ->
+  (forall x y, last_opt v = Some x -> hd_opt rest = Some y -> rp x <> rp y) ->
+  chain (v ++ rest).
+Proof. exact prune_canonical. Qed.
+Theorem C15_prune_junction_refuted :
+  exists q height retain q', chain q /\ prune_scan_queue_below q height retain = Ok q' /\ ~ chain q'.
+Proof. exact prune_junction_refuted. Qed.
+
 (** scan_complete of a non-empty range that touches the stored queue, for every context (shard
     metadata, discovered note positions): succeeds, keeps the queue canonical, and marks exactly
-    that range Scanned — the Scanned heights afterwards are the range plus those before. *)
+    that range Scanned — the Scanned heights afterwards are the range plus those before; any other
+    height keeps its priority, becomes FoundNote, or was uncovered and becomes Historic ([elsewhere]). *)
 Theorem C15_scan_marks_exactly : forall c q s e sap orc iro,
   chain q -> s < e -> touches q s e ->
   exists q', scan_complete c q s e sap orc iro = Ok q' /\ chain q' /\
-    forall h, scanned_at q' h <-> (s <= h < e \/ scanned_at q h).
+    (forall h, scanned_at q' h <-> (s <= h < e \/ scanned_at q h)) /\
+    (forall h, rows_at (map row_of q) h <> None -> rows_at (map row_of q') h <> None) /\
+    (forall h, rows_at (map row_of q') h = Some Ignored -> rows_at (map row_of q) h = Some Ignored) /\
+    (forall h, ~ (s <= h < e) -> elsewhere (rows_at (map row_of q) h) (rows_at (map row_of q') h)).
 Proof. exact scan_complete_spec. Qed.
 
 (** update_chain_tip (as repaired) never panics in building its ranges: it inserts an optional
     non-empty ChainTip range and then one valid, possibly empty range that is never Scanned and is
-    Verify only above the max scanned height.  Guard: heights are u32 and the wallet birthday is
-    not exactly tip + 1 with shard metadata below it (then the ChainTip entry is empty and first). *)
+    Verify only above the max scanned height, and Ignored only when there is no account.  Guard:
+    heights are u32 and the tip is below u32::MAX (a tip below the wallet birthday, including
+    tip = birthday - 1, is an early return in the repaired code). *)
 Theorem C15_tip_plan : forall c t, ctx_ok c t ->
   exists p, tip_plan c t = Ok p /\
     match p with
@@ -140,7 +231,8 @@ Theorem C15_tip_plan : forall c t, ctx_ok c t ->
         qs <= qe /\
         exists es l, entries = es ++ [l] /\ Forall nonempty es /\ valid l /\ Forall (within qs qe) entries /\
           Forall (fun r => rp r = ChainTip) es /\
-          (rp l <> Scanned) /\ (rp l = Verify -> exists ms, max_scanned c = Some ms /\ ms < rs l)
+          (rp l <> Scanned) /\ (rp l = Verify -> exists ms, max_scanned c = Some ms /\ ms < rs l) /\
+          (rp l = Ignored -> birthday c = None)
     end.
 Proof. exact tip_plan_spec. Qed.
 
@@ -150,7 +242,10 @@ Theorem C15_update_chain_tip : forall c q t qs qe entries,
   chain q -> ctx_ok c t -> tip_plan c t = Ok (Some (qs, qe, entries)) -> touches q qs qe ->
   exists q', update_chain_tip c q t = Ok q' /\ chain q' /\
     (forall h, scanned_at q' h -> scanned_at q h) /\
-    (forall h, scanned_at q h -> (forall ms, max_scanned c = Some ms -> h <= ms) -> scanned_at q' h).
+    (forall h, scanned_at q h -> (forall ms, max_scanned c = Some ms -> h <= ms) -> scanned_at q' h) /\
+    (forall h, rows_at (map row_of q) h <> None -> rows_at (map row_of q') h <> None) /\
+    (forall e h, In e entries -> in_range (rs e) (re e) h = true -> rows_at (map row_of q') h <> None) /\
+    (birthday c <> None -> forall h, rows_at (map row_of q') h = Some Ignored -> rows_at (map row_of q) h = Some Ignored).
 Proof. exact update_chain_tip_spec. Qed.
 
 (** Rewind: trimming keeps the queue canonical and forgets exactly the heights above. *)
@@ -177,20 +272,49 @@ Theorem C15_scan_step_measure : forall c q s e sap orc iro q' w n,
   chain q' /\ unscanned q' w n = unscanned q w n - (e - s).
 Proof. exact scan_step_measure. Qed.
 
-(** Every run of the client loop inside a window of [n] heights — scan steps on unscanned
-    ranges, interleaved with any number of chain-tip updates — has at most [n] scan steps (at
-    most the number of unscanned heights it started with), and the queue stays canonical. *)
-Theorem C15_sync_terminates : forall w n q k q'', chain q -> run w n q k q'' ->
-  Z.of_nat k <= unscanned q w n /\ (k <= n)%nat.
-Proof. exact sync_terminates. Qed.
-Theorem C15_run_invariant : forall w n q k q'', chain q -> run w n q k q'' ->
-  chain q'' /\ Z.of_nat k <= unscanned q w n - unscanned q'' w n.
+(** A rewind to [mh] raises the measure by exactly the heights it re-exposes (Scanned before,
+    above [mh]), at most the part of the window above [mh]; it keeps the invariants. *)
+Theorem C15_trim_step : forall q mh w n b, chain q -> 0 <= mh ->
+  chain (trim_scan_queue_to q mh) /\
+  unscanned (trim_scan_queue_to q mh) w n = unscanned q w n + reexposed q mh w n /\
+  (no_ignored_from b q -> no_ignored_from b (trim_scan_queue_to q mh)).
+Proof. exact trim_step. Qed.
+Theorem C15_reexposed_above : forall q mh w n, mh < u32_max ->
+  reexposed q mh w n <= Z.max 0 (w + Z.of_nat n - 1 - mh).
+Proof. exact reexposed_above. Qed.
+
+(** Every run of the client loop inside a window of [n] heights — scan steps on unscanned ranges,
+    chain-tip updates, rewinds, in any order — keeps the queue canonical and keeps "no Ignored
+    height from the birthday on"; its number [k] of scan steps is at most the unscanned heights it
+    started with plus the heights [r] re-exposed by its rewinds, hence at most n + r. *)
+Theorem C15_run_invariant : forall w n b q k r q'', chain q -> run w n q k r q'' ->
+  chain q'' /\ Z.of_nat k <= unscanned q w n - unscanned q'' w n + r /\ 0 <= r /\
+  (no_ignored_from b q -> no_ignored_from b q'').
 Proof. exact run_measure. Qed.
+Theorem C15_sync_terminates : forall w n q k r q'', chain q -> run w n q k r q'' ->
+  Z.of_nat k <= unscanned q w n + r /\ Z.of_nat k <= Z.of_nat n + r.
+Proof. exact sync_terminates. Qed.
+
+(** Quiescence under the reachable-state invariant: canonical queue, no Ignored height from the
+    birthday on, birthday and tip covered, nothing suggested: every height from the birthday to
+    the tip is Scanned. *)
+Theorem C15_quiescent_full : forall q b t, chain q -> no_ignored_from b q ->
+  rows_at (map row_of q) b <> None -> rows_at (map row_of q) t <> None ->
+  suggest_scan_ranges q Historic = [] ->
+  forall h, b <= h <= t -> scanned_at q h.
+Proof. exact quiescent_full. Qed.
 
 (** When nothing is suggested any more, every covered height is Scanned or Ignored. *)
 Theorem C15_quiescent : forall q, chain q -> suggest_scan_ranges q Historic = [] ->
   forall h p, rows_at (map row_of q) h = Some p -> p = Scanned \/ p = Ignored.
 Proof. exact quiescent. Qed.
+
+(** Bridge for the queue-level cases (scan, chain-tip update, rewind) inside the boolean domain
+    [qdom]: canonical stored queue before, touching query, u32 context, no Scanned row above the
+    max scanned block.  Agreement of the SQLite backend with the model implies the property on
+    the observed rows and suggestions. *)
+Theorem C15_agree_implies_property_queue : forall c, qdom c = true -> run_case c = true -> prop_case c = true.
+Proof. exact agree_implies_property_q. Qed.
 
 (** non-vacuity: a concrete sequence in the theorems' domain, evaluated *)
 Example C15_example :
